@@ -12,6 +12,8 @@ CONSTANTS
   Filters <- FNone
   Order <- OrderStated
   CompileMode = "stated"
+  Inners <- InnersNone
+  ScopeMode = "stated"
 INIT InitThorough
 NEXT Next
 INVARIANTS KeepInv BalanceSheetInv IncomeInv EquityInv TxBalanceInv LayoutInv FilterInv CompileInv SortedInv ExpectInv
